@@ -35,7 +35,7 @@ Qed.
 (* object.Identical is equality on the modelled values *)
 Lemma cval_eqb_eq : forall a b, cval_eqb a b = true -> a = b.
 Proof.
-  fix IH 1. intros x y. destruct x as [n| |s|b|l|l], y as [n'| |s'|b'|l'|l']; cbn [cval_eqb]; try discriminate.
+  fix IH 1. intros x y. destruct x as [n| |s|b|l|l|cn cw|cn], y as [n'| |s'|b'|l'|l'|cn' cw'|cn']; cbn [cval_eqb]; try discriminate.
   - intros H. f_equal. apply num_eqb_eq; auto.
   - reflexivity.
   - intros H. f_equal. apply name_eqb_eq; auto.
@@ -45,6 +45,8 @@ Proof.
   - revert l'. induction l as [|[k x] l IHl]; intros [|[k' y] r] H; try discriminate; try reflexivity.
     apply andb_true_iff in H as [H1 H2]. apply andb_true_iff in H1 as [H0 H1].
     apply key_eqb_eq in H0. apply IH in H1. apply IHl in H2. inversion H2. subst. reflexivity.
+  - intros H. apply andb_true_iff in H as [H1 H2]. apply name_eqb_eq in H1. apply IH in H2. subst. reflexivity.
+  - intros H. apply name_eqb_eq in H. subst. reflexivity.
 Qed.
 
 (* ------------------------------------------------------------------ association lists and frames *)
@@ -440,18 +442,29 @@ Section INV.
   Qed.
 
   Lemma eval_expr_inv : forall ex e, Inv e ->
-    Inv (fst (eval_expr e ex)) /\ length (fst (eval_expr e ex)) = length e.
+    Inv (fst (eval_expr c e ex)) /\ length (fst (eval_expr c e ex)) = length e.
   Proof.
-    intros ex e HI.
-    assert (OV : forall y f, Inv (fst (on_value (read_name e y) f)) /\ length (fst (on_value (read_name e y) f)) = length e).
-    { intros y f. destruct (read_name_inv e y HI) as (H1 & L1 & _).
-      destruct (read_name e y) as [e1 [r| | |]]; simpl in *; auto. }
-    destruct ex; simpl; auto.
-    - destruct (read_name_inv e y HI) as (H1 & L1 & _). auto.
-    - destruct (read_name_inv (empty_frame :: e) y (Inv_push e HI)) as (H1 & L1 & _).
-      destruct (read_name (empty_frame :: e) y) as [e1 r]. simpl in *.
+    induction ex; intros e HI;
+      try (simpl; destruct (read_name_inv e y HI) as (H1 & L1 & _);
+           destruct (read_name e y) as [e1 [rv| | |]]; simpl in *; auto; fail).
+    - simpl. auto.
+    - simpl. destruct (read_name_inv (empty_frame :: e) y (Inv_push e HI)) as (H1 & L1 & _).
+      destruct (read_name (empty_frame :: e) y) as [e1 rr]. simpl in *.
       destruct e1 as [|f t]; simpl in *; [lia|]. split; [|lia].
       eapply Inv_pop; eauto. intros ->. simpl in L1. pose proof (Inv_nonempty e HI). destruct e; simpl in *; [contradiction|lia].
+    - simpl. destruct (IHex e HI) as (H1 & L1).
+      destruct (eval_expr c e ex) as [e1 [rv| | |]]; simpl in *; auto.
+    - simpl. destruct (negb (length e =? 1)); simpl; auto.
+      destruct (create_or_set_inv (empty_frame :: e) n v0 false (Inv_push e HI)) as (H1 & L1 & _).
+      destruct (create_or_set c (empty_frame :: e) n v0 false) as [e1 r1]. simpl in *.
+      assert (Hpop : Inv (tl e1) /\ length (tl e1) = length e).
+      { destruct e1 as [|f t]; simpl in *; [lia|]. split; [|lia].
+        eapply Inv_pop; eauto. intros ->. simpl in L1. pose proof (Inv_nonempty e HI). destruct e; simpl in *; [contradiction|lia]. }
+      destruct r1; try (destruct e1; simpl in *; auto; fail).
+      destruct e1 as [|f t]; simpl in *; auto.
+      destruct (nlookup (fstore f) n) as [[w|up m]|]; simpl; auto.
+    - simpl. destruct (read_name_inv e g HI) as (H1 & L1 & _).
+      destruct (read_name e g) as [e1 [[| | | | | | |]| | |]]; simpl in *; auto.
   Qed.
 
   Lemma do_idx_set_inv : forall e n k w, Inv e ->
@@ -472,13 +485,13 @@ Section INV.
     intros a e Hd HI. destruct a; simpl.
     - (* = and := *)
       destruct (eval_expr_inv ex e HI) as (H0 & L0).
-      destruct (eval_expr e ex) as [e0 [w| | |]]; simpl in *; auto.
+      destruct (eval_expr c e ex) as [e0 [w| | |]]; simpl in *; auto.
       destruct (create_or_set_inv e0 n w define H0) as (H1 & H2 & _). split; auto. lia.
     - (* ++ -- *)
       destruct (read_name_inv e n HI) as (H1 & L1 & _).
       destruct (read_name e n) as [e1 r1]. simpl in *.
       destruct r1 as [old| | |]; auto.
-      destruct old as [[z|q|]| |s0|b0|l0|l0]; simpl; auto;
+      destruct old as [[z|q|]| |s0|b0|l0|l0|cn cw|cn]; simpl; auto;
       try (destruct (int64_ok (z + delta)); simpl; auto);
       match goal with |- context [create_or_set c e1 n ?w false] =>
         destruct (create_or_set_inv e1 n w false H1) as (H2 & L2 & _);
@@ -489,7 +502,7 @@ Section INV.
       pose proof (env_get_inv e n HI) as HG.
       destruct (env_get e n) as [[e1 o]|]; auto.
       destruct HG as (H1 & L1 & _).
-      destruct (deref e1 o) as [[| | | | |l]|]; auto.
+      destruct (deref e1 o) as [[| | | | |l| |]|]; auto.
       destruct (xmap_del l k) as [l'|]; auto.
       destruct (set_container_inv e1 n (XMap l) (XMap l') H1) as (H2 & L2).
       destruct (set_container c e1 n (XMap l) (XMap l')) as [e2 r2]. simpl in *. split; auto. lia.
